@@ -56,7 +56,8 @@ class Profile:
         self.safety = kw.get("safety", 0.25)         # probability of an explicit safety declaration
         self.services = kw.get("services", 2)
         self.errors = kw.get("errors", 3)
-        self.packages = kw.get("packages", ["com.verif.lab", "com.verif.lab.sub", "com.verif.lab.sub.deep", "com.verif.other", "org.example"])
+        self.packages = kw.get("packages", ["com.verif.lab", "com.verif.lab.sub", "com.verif.lab.sub.deep", "com.verif.other", "org.example",
+                                            "com.verif.left.api", "com.verif.right.api", "com.verif.left.api.v1", "com.verif.right.api.v1"])
         self.any_binary = kw.get("any_binary", True)
         self.externals = kw.get("externals", True)
         self.body_bias = kw.get("body_bias", False)   # C08: most arguments are bodies / typed parameters
@@ -185,15 +186,23 @@ class LabGen:
                     item = prim("DOUBLE")
                 return set_(item)
             return map_(self.key_type(idx) if not no_double else prim("STRING"), self.type_expr(idx, depth + 1, True, no_double))
-        if x < 0.72 or not self.types:
+        if x < 0.68 or not self.types:
             t = self.scalar()
             if no_double and t == prim("DOUBLE"):
                 t = prim("STRING")
             return t
-        if self.p.externals and x < 0.75:
+        if self.p.externals and x < 0.76:  # 8% of the non-container field types are external references
             fb = self.scalar(False)
             if no_double and fb == prim("DOUBLE"):
                 fb = prim("STRING")
+            y = r.random()
+            if depth < 3 and y < 0.5:
+                # the fallback is a full type: optionals / collections / references are legal too
+                fb = r.choice([opt(fb), lst(fb), set_(prim("STRING")), map_(prim("STRING"), fb)])
+            elif y < 0.5 and idx > 0:
+                cands = [t for t in self.types[:idx] if t.kind in ("enum", "alias")]
+                if cands:
+                    fb = r.choice(cands).ref()
             return external(upper_camel(r.sample(WORDS, 2)), "java.ext", fb)
         if container and r.random() < self.p.cycles and idx < len(self._planned):
             # forward or self reference (recursion through a container)
@@ -219,9 +228,17 @@ class LabGen:
                 vals = set()
                 while len(vals) < n:
                     v = "_".join(w.upper() for w in r.sample(WORDS, r.choice([1, 2])))
-                    if r.random() < 0.15:
+                    x = r.random()
+                    if x < 0.12:
                         v += str(r.randrange(10))
-                    if v != "UNKNOWN":
+                    elif x < 0.3:
+                        # segments that start with a digit: case conversions are not the identity here
+                        v += "_" + r.choice(["1", "2", "1_3", "2X", "9Z", "0"])
+                    elif x < 0.36:
+                        v = r.choice(["SELF", "A", "X9", "TYPE", "NONE", "SOME", "OK"])
+                    # values colliding after UpperCamel conversion are a pinned finding (C03-5)
+                    norm = v.replace("_", "").lower()
+                    if v != "UNKNOWN" and norm not in {y.replace("_", "").lower() for y in vals}:
                         vals.add(v)
                 d.values = sorted(vals)
                 r.shuffle(d.values)
